@@ -146,6 +146,29 @@ def native(ctx):
         if maps is not None:
             judge_native(rec, "native_sequence", key, cases, maps, structural=False)
             rec.note("native_shape_changes", sum(1 for a, b in zip(cases, cases[1:]) if a[0].shape != b[0].shape))
+    many_levels(ctx, rec, exe)
+
+
+def many_levels(ctx, rec, exe):
+    """Level counts far above the number of bins, up to 2^25: strictly positive spectra whose range is not exactly
+    representable (the level index of the lowest bin must still stay below ihmax)."""
+    for i, rng in ctx.cases("native_many_levels", ctx.n(48, 600)):
+        cases = []
+        for _ in range(3):
+            nk, nth = int(rng.integers(1, 13)), int(rng.integers(1, 13))
+            kind = str(rng.choice(["floor_peak", "offset", "positive"]))
+            if kind == "floor_peak":
+                s = np.full((nk, nth), np.float32(rng.uniform(0.05, 0.9)), dtype=np.float32)
+                s[rng.integers(nk), rng.integers(nth)] += np.float32(rng.uniform(0.5, 3))
+            elif kind == "offset":
+                s = (rng.random((nk, nth)) * float(rng.uniform(0.1, 10)) + float(rng.uniform(0.01, 5))).astype(np.float32)
+            else:
+                s = (10 ** rng.uniform(-6, 2, (nk, nth))).astype(np.float32)
+            cases.append((np.ascontiguousarray(s), int(rng.choice([2 ** 16, 10 ** 6, 2 ** 23, 2 ** 24, 2 ** 24, 2 ** 24 + 1, 2 ** 25]))))
+        key = "levels|ihmax>=2^16"
+        maps = run_driver(rec, exe, cases, "native_many_levels", key, timeout=600)
+        if maps is not None:
+            judge_native(rec, "native_many_levels", key, cases, maps, structural=False)
 
 
 # ------------------------------------------------------------------------------------------ python
